@@ -9,10 +9,12 @@ import (
 	"io"
 	"net/http"
 	"net/http/httptest"
+	"os"
 	"sort"
 	"strconv"
 	"strings"
 	"sync"
+	"sync/atomic"
 	"time"
 
 	"verif/harness/hk"
@@ -23,16 +25,22 @@ import (
 const foreignBase = 1000000000000 // body marker of a frame that carries somebody else's (nobody's) result
 
 type plan struct {
-	start   int64
-	k       int
-	class   map[int64]string // per request id
-	frames  []scriptFrame    // in writing order; the last one answers the sentinel (highest id)
-	modelEv []any            // inject+deliver per frame
+	start    int64
+	k        int
+	class    map[int64]string // per request id
+	frames   []scriptFrame    // phase 1, in writing order
+	frames2  []scriptFrame    // phase 2 (two-phase plans): written once the harness has seen the callers of `early` return; the last one answers the sentinel (highest id)
+	modelEv  []any            // inject+deliver per phase-1 frame
+	modelEv2 []any
+	early    []int64 // calls that have returned before phase 2 starts
 }
 
 var classes = []string{"ok", "ok", "ok", "twice", "foreignFirst", "stringId", "floatId", "unknown", "none"}
 
-func mkPlan(c *hk.Ctx, start int64, k int) plan {
+// mkPlan draws a script. twoPhase: the second frame of an id ("twice", "foreignFirst") is written only after that call has
+// returned — the stdio client closes a call's channel when the call returns, and a frame that finds the entry an instant
+// before the close makes its reader die (send on closed channel, reported separately); the harness must not depend on that race.
+func mkPlan(c *hk.Ctx, start int64, k int, twoPhase bool) plan {
 	p := plan{start: start, k: k, class: map[int64]string{}}
 	type fr struct {
 		f   scriptFrame
@@ -40,7 +48,7 @@ func mkPlan(c *hk.Ctx, start int64, k int) plan {
 		seq int
 		mid any
 	}
-	var fs []fr
+	var fs, second []fr
 	for i := 0; i < k-1; i++ {
 		id := start + 1 + int64(i)
 		cl := classes[c.Rng.Intn(len(classes))]
@@ -51,9 +59,11 @@ func mkPlan(c *hk.Ctx, start int64, k int) plan {
 		case "ok":
 			fs = append(fs, fr{scriptFrame{raw, id}, id, 0, num})
 		case "twice":
-			fs = append(fs, fr{scriptFrame{raw, id}, id, 0, num}, fr{scriptFrame{raw, id}, id, 1, num})
+			fs = append(fs, fr{scriptFrame{raw, id}, id, 0, num})
+			second = append(second, fr{scriptFrame{raw, id}, id, 1, num})
 		case "foreignFirst":
-			fs = append(fs, fr{scriptFrame{raw, foreignBase + id}, id, 0, num}, fr{scriptFrame{raw, id}, id, 1, num})
+			fs = append(fs, fr{scriptFrame{raw, foreignBase + id}, id, 0, num})
+			second = append(second, fr{scriptFrame{raw, id}, id, 1, num})
 		case "stringId":
 			fs = append(fs, fr{scriptFrame{`"` + raw + `"`, id}, id, 0, map[string]any{"str": raw}})
 		case "floatId":
@@ -62,6 +72,13 @@ func mkPlan(c *hk.Ctx, start int64, k int) plan {
 			u := start + int64(k) + 100 + int64(i)
 			fs = append(fs, fr{scriptFrame{strconv.FormatInt(u, 10), u}, u, 0, map[string]any{"int": u}})
 		}
+	}
+	sent := start + int64(k)
+	p.class[sent] = "ok"
+	sentinel := fr{scriptFrame{strconv.FormatInt(sent, 10), sent}, sent, 0, map[string]any{"int": sent}}
+	if !twoPhase {
+		fs = append(fs, second...)
+		second = nil
 	}
 	c.Rng.Shuffle(len(fs), func(i, j int) { fs[i], fs[j] = fs[j], fs[i] })
 	// keep the two frames of one id in their order
@@ -74,12 +91,22 @@ func mkPlan(c *hk.Ctx, start int64, k int) plan {
 			pos[fs[i].id] = i
 		}
 	}
-	sent := start + int64(k)
-	p.class[sent] = "ok"
-	fs = append(fs, fr{scriptFrame{strconv.FormatInt(sent, 10), sent}, sent, 0, map[string]any{"int": sent}})
+	c.Rng.Shuffle(len(second), func(i, j int) { second[i], second[j] = second[j], second[i] })
+	for _, f := range second {
+		p.early = append(p.early, f.id)
+	}
+	if twoPhase {
+		second = append(second, sentinel)
+	} else {
+		fs = append(fs, sentinel)
+	}
 	for _, f := range fs {
 		p.frames = append(p.frames, f.f)
 		p.modelEv = append(p.modelEv, map[string]any{"e": "inject", "id": f.mid, "body": f.f.Body}, map[string]any{"e": "deliver", "i": 0})
+	}
+	for _, f := range second {
+		p.frames2 = append(p.frames2, f.f)
+		p.modelEv2 = append(p.modelEv2, map[string]any{"e": "inject", "id": f.mid, "body": f.f.Body}, map[string]any{"e": "deliver", "i": 0})
 	}
 	return p
 }
@@ -109,15 +136,23 @@ func emitScripted(c *hk.Ctx, kind string, p plan, done map[string]string, tag st
 		evs = append(evs, map[string]any{"e": "issue"})
 	}
 	evs = append(evs, p.modelEv...)
+	isEarly := map[int64]bool{}
+	for _, id := range p.early {
+		isEarly[id] = true
+		evs = append(evs, map[string]any{"e": "finish", "c": id})
+	}
+	evs = append(evs, p.modelEv2...)
 	for i := 0; i < p.k; i++ {
-		evs = append(evs, map[string]any{"e": "finish", "c": p.start + 1 + int64(i)})
+		if id := p.start + 1 + int64(i); !isEarly[id] {
+			evs = append(evs, map[string]any{"e": "finish", "c": id})
+		}
 	}
 	c.Emit(map[string]any{"c": "pending.run", "kind": kind, "start": p.start, "evs": evs}, map[string]any{"done": done, "pending": []int{}, "disabled": nil}, true, tag)
 }
 
 // driveScripted fires k concurrent calls, waits for the sentinel's caller, cancels the callers whose request got no frame at
 // all, gives the rest a grace period (their frames were dispatched before the sentinel's), cancels what is left.
-func driveScripted(c *hk.Ctx, call caller, p plan, tag string, idOf func(string) (string, bool), arrivedAll func() bool) []callRes {
+func driveScripted(c *hk.Ctx, call caller, p plan, tag string, idOf func(string) (string, bool), startPhase2 func()) []callRes {
 	nonces := mkNonces(c, tag, p.k, 1)
 	var cancels sync.Map
 	resCh := make(chan []callRes, 1)
@@ -132,6 +167,28 @@ func driveScripted(c *hk.Ctx, call caller, p plan, tag string, idOf func(string)
 	returned := map[string]bool{}
 	sentinelID := strconv.FormatInt(p.start+int64(p.k), 10)
 	deadline := time.After(callCeiling())
+	if startPhase2 != nil {
+		// phase 2 starts once every call that gets a second frame has returned with its first one
+		want := map[string]bool{}
+		for _, id := range p.early {
+			want[strconv.FormatInt(id, 10)] = true
+		}
+		back := 0
+		for back < len(want) {
+			select {
+			case n := <-doneOne:
+				returned[n] = true
+				if id, ok := idOf(n); ok && want[id] {
+					back++
+				}
+				continue
+			case <-deadline:
+				degraded.Store(true)
+			}
+			break
+		}
+		startPhase2()
+	}
 	sentinelBack := false
 	for !sentinelBack {
 		select {
@@ -187,10 +244,10 @@ func runScripted(c *hk.Ctx) {
 	}
 	for r := 0; r < rounds; r++ {
 		start := []int64{0, 999999 - int64(k)}[r%2]
-		scriptedLegacy(c, mkPlan(c, start, k))
-		scriptedStdio(c, mkPlan(c, start, k), r)
+		scriptedLegacy(c, mkPlan(c, start, k, false))
+		scriptedStdio(c, mkPlan(c, start, k, true), r)
 	}
-	scriptedStdio(c, mkPlan(c, (1<<53)-int64(k), k), 99)
+	scriptedStdio(c, mkPlan(c, (1<<53)-int64(k), k, true), 99)
 	for _, mode := range []string{"json", "sse", "sse-handlers"} {
 		scriptedStreamable(c, mode, 0)
 		scriptedStreamable(c, mode, 999990)
@@ -277,12 +334,26 @@ func scriptedLegacy(c *hk.Ctx, p plan) {
 
 // ---- stdio scripted peer (child process)
 
+// panicLog counts "readLoop panic" lines of the stdio client.
+type panicLog struct {
+	hk.QuietLogger
+	n atomic.Int64
+}
+
+func (p *panicLog) Errorf(format string, args ...interface{}) {
+	if strings.Contains(format, "readLoop panic") {
+		p.n.Add(1)
+	}
+}
+
 func scriptedStdio(c *hk.Ctx, p plan, round int) {
 	mapFile := fmt.Sprintf("%s/stdio-script-map-%d-%d.txt", c.Dir, p.start, round)
-	sj, _ := json.Marshal(script{K: p.k, Frames: p.frames})
+	goFile := mapFile + ".phase2"
+	sj, _ := json.Marshal(script{K: p.k, Frames: p.frames, Frames2: p.frames2, GoFile: goFile})
+	panics := &panicLog{}
 	sc, err := mcp.NewStdioClient(mcp.StdioTransportConfig{
 		ServerParams: mcp.StdioServerParameters{Command: selfExe(), Env: map[string]string{childEnv: "script", childMapEnv: mapFile, childScriptEnv: string(sj)}},
-		Timeout:      ceiling}, mcp.Implementation{Name: "verif-client", Version: "1"}, mcp.WithStdioLogger(hk.QuietLogger{}))
+		Timeout:      ceiling}, mcp.Implementation{Name: "verif-client", Version: "1"}, mcp.WithStdioLogger(panics))
 	if err != nil {
 		c.Violate(hk.Violation{Fingerprint: "pending:harness:new-stdio-client", What: err.Error()})
 		return
@@ -300,8 +371,15 @@ func scriptedStdio(c *hk.Ctx, p plan, round int) {
 	idOf := func(n string) (string, bool) { s, ok := readMap(mapFile)[n]; return s, ok }
 	res := driveScripted(c, func(ctx context.Context, nonce string) (*mcp.CallToolResult, error) {
 		return sc.CallTool(ctx, &mcp.CallToolRequest{Params: mcp.CallToolParams{Name: "echo", Arguments: map[string]interface{}{"nonce": nonce}}})
-	}, p, "ss", idOf, nil)
+	}, p, "ss", idOf, func() { os.WriteFile(goFile, []byte("go"), 0o644) })
 	done := scriptedOutcome(res, idOf)
+	if panics.n.Load() > 0 {
+		// the reader goroutine of the stdio client died (send on a closed channel, recovered in readLoop): timing dependent,
+		// recorded in the evidence, not judged here
+		c.Tag("stdio-client-reader-died")
+		c.Noise()
+		return
+	}
 	emitScripted(c, "int64", p, done, "scripted-stdio")
 	if n := mcp.VerifPendingClientRequests(sc); n != 0 {
 		c.Violate(hk.Violation{Fingerprint: "pending:table-not-empty:stdio", What: "entries left in the client's pending table after every call returned", Observed: n})
